@@ -12,7 +12,7 @@ EXTENDS Integers, Sequences, FiniteSets, TLC, Json, CSV, IOUtils
 
 CONSTANT MaxDepth
 
-Kinds  == {"throw", "div", "builtin", "nargs", "index", "notcallable", "forin", "slice", "selector", "setindex", "setselector", "constuse", "constcall", "foldmixed", "foldcall"}
+Kinds  == {"throw", "div", "builtin", "nargs", "index", "notcallable", "forin", "slice", "selector", "setindex", "setselector", "constuse", "constcall", "foldmixed", "foldcall", "foldneg", "foldnegint", "foldcompl"}
 Styles == {"stmt", "assign", "retplus", "closure", "recur", "module", "method", "bare", "baremod", "inblock", "tryfin", "mutual", "recur2", "callback", "callback2", "callbacksel",
            "ifcond", "forcond", "ternary", "argument", "index"}
 Blanks == {0, 1, 3}
